@@ -301,7 +301,7 @@ def gen_case(ctx, cid, cls):
     r = ctx.rng
     xerces = cls == "xercesdom"
     p_empty = 0.35 if cls == "emptyvals" else 0.06
-    ndocs = r.choice([1, 2, 2, 2, 3])
+    ndocs = r.choice([1, 2, 2, 2, 3]) if cls != "rtfdoc" else r.choice([2, 2, 3])
     big = cls == "deep"
     docs = [gen_doc(r, "mno"[i], p_empty, xerces, big) for i in range(ndocs)]
     names = r.sample(KEY_NAMES, r.choice([1, 2, 2, 3]))
@@ -437,7 +437,11 @@ def doc_vars(c):
         s = ('<xsl:decimal-format name="q:df" NaN="nan" minus-sign="M"/><xsl:decimal-format xmlns:o="urn:c15x" name="o:df" minus-sign="X"/>'
              '<xsl:variable name="d0" select="/"/>')
     for i in range(1, len(c["docs"])):
-        s += '<xsl:variable name="d%d" select="document(\'doc%d.xml\')"/>' % (i, i)
+        if c.get("cls") == "rtfdoc":
+            s += ('<xsl:variable name="f%d"><xsl:copy-of select="document(\'doc%d.xml\')/node()"/></xsl:variable>'
+                  '<xsl:variable name="d%d" xmlns:exsl="http://exslt.org/common" select="exsl:node-set($f%d)"/>') % (i, i, i, i)
+        else:
+            s += '<xsl:variable name="d%d" select="document(\'doc%d.xml\')"/>' % (i, i)
     return s
 
 
@@ -902,7 +906,11 @@ def run_corpus(ctx, exe, known):
         ctx.known_finding("%s %s" % (k, known[k]["what"]))
 
 
-CLASSES = ["plain", "plain", "reuse", "samename", "attrs", "attrs", "deep", "emptyvals", "xercesdom", "unknown", "reuse", "plain"]
+# "rtfdoc": the second and later documents are result tree fragments (copies of doc<i>.xml made by xsl:copy-of inside a
+# variable, converted with exsl:node-set): their root is a document-fragment node and key() must find the key node
+# from every kind of context node, attributes included (seed C15_g)
+CLASSES = ["plain", "plain", "reuse", "samename", "attrs", "attrs", "deep", "emptyvals", "xercesdom", "unknown", "reuse", "plain",
+           "rtfdoc", "rtfdoc"]
 
 
 def make_cases(ctx, n, tag):
